@@ -1,4 +1,5 @@
 import SockModel.Model.DispatchLemmas
+import SockModel.Spec.C03
 /-!
 # C03  Async events: in-order data, exactly-one disconnect, exactly-one connect
 
@@ -162,7 +163,47 @@ theorem one_handler_per_step (order : List Nat) (s : St) (pipe : Bool) (chunk rx
           rw [(destroyAll_fields _ hdl).2.2.2.2.1]; exact Or.inr ⟨_, rfl⟩
         | acceptor => simp only [doTask, hkind]; exact Or.inl trivial
 
+/-- **the whole property, as the check evaluates it on the implementation, holds on the model**: the
+predicate of `Spec/C03.lean` (`Spec.specStep`: the reference book-keeping kept from the observations
+alone - per connection the stream the peer sent, bytes delivered, ended, registered, gone, buffer size,
+address; per acceptor the connections waiting; queued sends - which rejects a step with more than one
+socket task, a handler on a foreign thread, a chunk that is empty / larger than the buffer / not the
+next bytes of the stream, a disconnect of a connection the peer did not end or whose bytes are not all
+delivered or with an address other than the one the socket was created for, anything after disconnect
+or destruction, a connect handler that is duplicate / out of order / reports the wrong peer / hands
+over the wrong socket, and a step that does nothing while something is owed to a live socket) accepts
+the observations the model produces (`Spec.modelTrace`: the operations and the entries every step
+appends to the model's handler log) for every history of any length, every segmentation, every
+receive-buffer size and every handler-side destruction, with the readiness tests in the order of the
+source.  `./check C03` runs the very same `Spec.specStep` on the transcript of the real library, so a
+`spec` verdict there is a difference between library and model.  `histWf`: peers send / close / reset
+only connections that exist (a precondition of the model, which keeps a channel for every id). -/
+theorem spec_holds_on_model (ops : List Op) (hwf : Spec.histWf Consts.dispatchOrder {} ops = true) :
+    ∃ s, Spec.specRun {} (Spec.modelTrace Consts.dispatchOrder {} ops) = .ok s :=
+  Spec.model_satisfies_spec ops hwf
+
 /-! ### non-vacuity -/
+
+/-- a history with two accepted connections, a client, data before accept, segmentation, a queued
+send, a reset, a close, a pipe wake-up, destruction inside a handler and outside -/
+def specWitness : List Op :=
+  [.newAcceptor, .peerConnect 0 7, .peerSend 1 [1, 2, 3], .peerConnect 0 8, .newClient 5 4, .wantSend 3, .peerRst 2,
+   .step false 0 2 [], .step false 0 2 [], .step false 2 2 [], .step false 2 2 [3], .step true 0 0 [], .peerClose 1,
+   .step false 2 2 [], .step false 2 2 [], .destroy 0, .step false 2 2 []]
+
+example : Spec.histWf Consts.dispatchOrder {} specWitness = true := by decide
+example : (Spec.modelTrace Consts.dispatchOrder {} specWitness).length = 16 ∧
+    (run Consts.dispatchOrder {} specWitness).log =
+      [.connect 0 1 7, .connect 0 2 8, .data 1 [1, 2] 2, .data 1 [3] 2, .disconnect 1 7 .eof, .disconnect 2 8 .fail] := by decide
+example : (Spec.specRun {} (Spec.modelTrace Consts.dispatchOrder {} specWitness)).toOption.isSome = true := by decide
+
+/-- the predicate is not vacuous and both hypotheses matter: with `POLLHUP|POLLERR` tested first the
+model's own trace is REJECTED (disconnect before the data was delivered), and so is a trace in which a
+peer sent on a connection id that did not exist yet -/
+example : (Spec.specRun {} (Spec.modelTrace [2, 0, 1] {}
+    [.newClient 5 4, .peerSend 0 [1, 2, 3], .peerRst 0, .step false 9 9 []])).toOption.isNone = true := by decide
+example : (Spec.specRun {} (Spec.modelTrace Consts.dispatchOrder {}
+    [.peerSend 0 [1, 2, 3], .newClient 5 4, .step false 9 9 []])).toOption.isNone = true := by decide
 
 /-- two peers on one acceptor, data before accept, segmentation into 2-byte chunks, close -/
 example :
